@@ -1,5 +1,6 @@
-Require Import QtlVerif.AmalgamDefs QtlVerif.AmalgamCondDefs.
+Require Import QtlVerif.AmalgamDefs QtlVerif.AmalgamCondDefs QtlVerif.AmalgamCommentDefs.
 Require Extraction.
 Require Import ExtrOcamlBasic.
 Extraction "amalgam_model.ml" expand finish generate sources emitted included starved met
+  includes_outside_comments files_with_include_in_comment
   run_tu branches confined mentioned_nonk bad taken too_deep.
